@@ -7,6 +7,58 @@
 open Model
 open Sfio
 
+(* ---- WKT model alphabet on the wire (harness cmd/c08/mtext.go, after C05): two hex digits per
+   character, 'N' + 16 hex digits per number literal ---- *)
+let ascii_of_int (i : int) : ascii =
+  let b k = (i lsr k) land 1 = 1 in
+  Ascii (b 0, b 1, b 2, b 3, b 4, b 5, b 6, b 7)
+
+let mtext_parse (s : string) : ch list =
+  let n = String.length s in
+  let rec go i acc =
+    if i >= n then List.rev acc
+    else if s.[i] = 'N' then go (i + 17) (Num (n_of_hex (String.sub s (i + 1) 16)) :: acc)
+    else go (i + 2) (C (ascii_of_int (16 * hexval s.[i] + hexval s.[i + 1])) :: acc) in
+  go 0 []
+
+(* ---- JSON tree protocol (harness cmd/c08/jv.go, after C06): prefix tokens ---- *)
+let str_of_hex (h : string) : n list =
+  let len = String.length h / 2 in
+  List.init len (fun i -> n_of_int (16 * hexval h.[2 * i] + hexval h.[2 * i + 1]))
+
+let parse_json (s : string) : json =
+  let cur = ref (tokens s) in
+  let next () = match !cur with
+    | [] -> raise (Parse_error "unexpected end of json tokens")
+    | t :: r -> cur := r; t in
+  let tail t = String.sub t 1 (String.length t - 1) in
+  let rec value () =
+    let t = next () in
+    match t.[0] with
+    | 'n' -> JNull
+    | 't' -> JBool true
+    | 'f' -> JBool false
+    | '#' -> JNum (n_of_hex (tail t))
+    | 's' -> JStr (str_of_hex (tail t))
+    | '[' -> let k = int_of_string (tail t) in
+      let acc = ref [] in
+      for _ = 1 to k do acc := value () :: !acc done;
+      JArr (List.rev !acc)
+    | '{' -> let k = int_of_string (tail t) in
+      let acc = ref [] in
+      for _ = 1 to k do
+        let kt = next () in
+        if kt.[0] <> 's' then raise (Parse_error "key expected");
+        let key = str_of_hex (tail kt) in
+        let v = value () in
+        acc := (key, v) :: !acc
+      done;
+      JObj (List.rev !acc)
+    | _ -> raise (Parse_error ("bad json token " ^ t)) in
+  let v = value () in
+  if !cur <> [] then raise (Parse_error "trailing json tokens");
+  v
+
 (* The linear allocation bound of the executable statement: per decoder call at most
    k_bound * len + slack bytes in total (runtime.MemStats.TotalAlloc delta, i.e. garbage included).
    Why 512: one input byte creates at most one element (the densest case is TWKB, where an empty
@@ -35,11 +87,11 @@ let () =
   let path = Sys.argv.(1) in
   iter_lines path (fun line ->
       let f = split_tabs line in
-      if Array.length f < 16 then fail f.(0) "CORR" "malformed_case" (trunc line) else begin
+      if Array.length f < 17 then fail f.(0) "CORR" "malformed_case" (trunc line) else begin
       let id = f.(0) and cls = f.(1) and fmt = f.(2) and hex = f.(3) in
       let nv = f.(4).[0] and nv_alloc = int_of_string f.(5) and v = f.(6).[0] and v_alloc = int_of_string f.(7) in
       let valid = f.(8).[0] and adapt = (if f.(9) = "-" then "" else f.(9)) and ad_alloc = int_of_string f.(10) in
-      let reenc = f.(11) and redec = f.(12) and rewkb = f.(13) and dump = f.(14) and msg = f.(15) in
+      let reenc = f.(11) and redec = f.(12) and rewkb = f.(13) and dump = f.(14) and msg = f.(15) and mtext = f.(16) in
       let len = String.length hex / 2 in
       incr cases;
       count ("fmt_" ^ fmt);
@@ -69,8 +121,7 @@ let () =
         else if v <> 'o' && nv = 'o' && valid = '1' then
           fail id "SPEC" "gate_rejects_valid" (Printf.sprintf "fmt=%s NoValidate result validates but the validating call failed input=%s" fmt short)
       end;
-      let tag = if nv = 'o' then (if fmt = "wkb" then first_token dump else
-                                     if String.length dump > 2 then String.sub dump 2 (String.length dump - 2) else "?") else "" in
+      let tag = if nv = 'o' then first_token dump else "" in
       if nv = 'o' then begin
         if String.contains reenc 'p' || String.contains redec 'p' then
           fail id "SPEC" "reencode_panic" (trunc (Printf.sprintf "fmt=%s reenc=%s redec=%s input=%s %s" fmt reenc redec short msg));
@@ -105,7 +156,7 @@ let () =
       if fmt = "wkb" && nv <> 'd' && not big then begin
         let bs = bytes_of_hex hex in
         (* one run of the model: dec and dec_alloc are projections of dec_full *)
-        let mcls, mdump, ma = match dec_full bs with
+        let mcls, mdump, ma = match c08_wkb_dec_full bs with
           | POk (g, (_, a)) -> 'o', dump_geom g, int_of_n a
           | PErr (e, a) -> count ("model_" ^ err_name e);
             if e = EFuel then fail id "CORR" "model_fuel" short;
@@ -124,12 +175,41 @@ let () =
         (* Scan: the model has no validator; Go's Scan = model scan and Validate *)
         if len <= 1024 && String.length adapt = 10 && v <> 'p' && valid <> 'p' then
           Array.iteri (fun i t ->
-              let m_ok = (match scan t bs with Ok _ -> true | _ -> false) in
+              let m_ok = (match c08_wkb_scan t bs with Ok _ -> true | _ -> false) in
               let want = if m_ok && valid = '1' then 'o' else 'e' in
               if adapt.[3 + i] <> 'p' && adapt.[3 + i] <> want then
                 fail id "CORR" "scan" (Printf.sprintf "type#%d model=%b valid=%c impl=%c input=%s" i m_ok valid adapt.[3 + i] short))
             scan_types
       end;
+      (* ---- CORR: the TWKB, WKT and GeoJSON model decoders (C07's, C05's, C06's models; the
+         theorems of Props/C08.v about them are tied to the code here, on the malformed streams) *)
+      let compare_model name (res : n geomT outcome) =
+        let mcls, mdump = match res with
+          | Ok g -> count (name ^ "_model_ok"); 'o', dump_geom g
+          | Err e -> count (name ^ "_model_" ^ err_name e);
+            if e = EFuel then fail id "CORR" (name ^ "_model_fuel") short;
+            'e', "-"
+          | Panic _ -> fail id "CORR" (name ^ "_model_panic") short; 'p', "-" in
+        if nv <> 'p' && mcls <> 'p' && mcls <> nv then
+          fail id "CORR" (name ^ "_dec_class") (trunc (Printf.sprintf "model=%c impl=%c input=%s" mcls nv short))
+        else if nv = 'o' && mcls = 'o' && mdump <> dump then
+          fail id "CORR" (name ^ "_dec_dump") (trunc (Printf.sprintf "input=%s model=%s impl=%s" short mdump dump)) in
+      if nv <> 'd' && not big then begin
+        if fmt = "twkb" then
+          compare_model "twkb" (match c08_twkb_unmarshal (bytes_of_hex hex) with
+              | Ok (g, _) -> Ok g | Err e -> Err e | Panic p -> Panic p)
+        else if fmt = "wkt" then begin
+          if mtext = "-" then count "wkt_outside_alphabet"
+          else match c08_wkt_unmarshal (mtext_parse mtext) with
+            | Err EOther -> count "wkt_outside_alphabet"   (* the model's own marker for texts it cannot express *)
+            | r -> compare_model "wkt" r end
+        else if fmt = "json" then begin
+          if mtext = "-" then begin
+            count "json_outside_model";
+            (* not JSON for encoding/json (or out-of-range number, case-folded key): nothing to compare *)
+          end else compare_model "json" (c08_gj_unmarshal (parse_json mtext)) end
+      end;
+      if fmt <> "wkb" && big then count "corr_skipped_big";
       if not (Hashtbl.mem sampled fmt) && nv = 'o' && len < 60 && (cls = "sub256" || cls = "tok_replace" || cls = "arity" || cls = "varint_2k") then begin
         Hashtbl.replace sampled fmt ();
         Printf.printf "SAMPLE\t%s\t%s/%s\tinput=%s\tnv=%c(%dB) v=%c(%dB) valid=%c adapters=%s reenc=%s redec=%s\n"
